@@ -835,6 +835,32 @@ class YAMLPath:
             path_segments.append(self._expand_splats(
                 yaml_path, segment_id, segment_type))
 
+        # Unbalanced or misplaced demarcation -- like (a)b, [name(]), or
+        # b.(&x) -- can leave a segment whose attributes do not suit its type;
+        # such a path cannot be evaluated and must not be handed out.
+        for (check_type, check_attrs) in path_segments:
+            if check_type in (PathSegmentTypes.MATCH_ALL,
+                              PathSegmentTypes.TRAVERSE):
+                well_formed = check_attrs is None
+            elif check_type is PathSegmentTypes.COLLECTOR:
+                well_formed = isinstance(check_attrs, CollectorTerms)
+            elif check_type is PathSegmentTypes.SEARCH:
+                well_formed = isinstance(check_attrs, SearchTerms)
+            elif check_type is PathSegmentTypes.KEYWORD_SEARCH:
+                well_formed = isinstance(check_attrs, SearchKeywordTerms)
+            elif check_type is PathSegmentTypes.INDEX:
+                well_formed = (isinstance(check_attrs, int)
+                               or (isinstance(check_attrs, str)
+                                   and ":" in check_attrs))
+            else:
+                well_formed = isinstance(check_attrs, str)
+
+            if not well_formed:
+                raise YAMLPathException(
+                    "YAML Path contains a malformed {} segment".format(
+                        check_type),
+                    yaml_path)
+
         return path_segments
 
     @staticmethod
